@@ -439,6 +439,12 @@ func (n *not) String() string {
 	return convert.JSONToString(n)
 }
 
+// ShouldSkip never skips a block: the block filters (bloom filter, dictionary, min/max) can only prove
+// that a value is absent, which says nothing about the elements a negation selects.
+func (n *not) ShouldSkip(_ index.FilterOp) (bool, error) {
+	return false, nil
+}
+
 type eq struct {
 	*leaf
 }
